@@ -23,6 +23,18 @@ CHECKS = {
  "C12": ("model_checking", "same product under the three lenient option valuations + option flow rule + preset evaluation",
          "P(o) = R(o) (language, outputs, code map events, errors) for the three lenient valuations, where R(o) relaxes exactly the surrogate rules of the enabled flags; the flags are read only inside the string scanner; Options::default/strict/flexible evaluate to the documented records.",
          "the configuration high-surrogate escape directly followed by another high-surrogate escape is unspecified and not constrained (printed as INFO).", "3/C12"),
+ "C04": ("other", "abstract interpretation of the printer: per-character escape table vs RFC 8259/8785, emission token sequences, sizes/index lock-step, per-variant dispatch",
+         "Clause-wise: (esc) for every char the text string_literal writes decodes back to it under RFC 8259 section 7 and contains no raw quote/backslash/control; (tokens) everything the emitters write is a JSON token, a string literal, the number's text, a child, or whitespace from Spaces/IndentBy/newline, for n = 0..N children, expanded and inline; (order) children/entries once each, forward, key with its own value; (lockstep) one sizes slot reserved/consumed per container at entry, children forward, top level sizes the same value and starts at 0; (dispatch) per Value variant. Whole-value equality of the re-parse is the composition with C01/C02, not mechanised.",
+         "loops unrolled for n <= 3 (quick) / 5 (thorough) children with a uniformity argument; Display for json_number::Number trusted; summary table.", "3/C04"),
+ "C08": ("other", "abstract interpretation: escape table as a total function on char vs RFC 8785; preset evaluation; delegation chain; printer model without whitespace tokens",
+         "string_literal, extracted as a total function on char (interval partition, one abstract loop state), equals the RFC 8785 table for all 1,112,064 scalar values; Options::compact() evaluates to all spacing 0 / limits None; Display, to_string and From<Value> for String reach the printer with exactly that record and indentation 0, unconditionally; with that record the emission sequences contain no whitespace token; strings always go through string_literal and numbers through the number's Display.",
+         "Display for json_number::Number prints the stored text (dependency); summary table.", "3/C08"),
+ "C13": ("other", "abstract interpretation of pre_compute_*/print_* with a symbolic option record: emission sequences and linear width forms vs the documented layout",
+         "For arrays and objects with n = 0..N children, every Limit variant and expanded/inline decisions: the emission token sequence equals the documented layout with field identity (array_* vs object_*, *_empty, indent depth); the pre-computed width equals, as a linear form over the option fields, key widths and child widths, the character count of the inline emission; expanded iff a child is expanded or the documented limit predicate holds; printed_string_size counts exactly the characters string_literal writes; Spaces/IndentBy/Indent write exactly n spaces / k units.",
+         "loops unrolled for n <= 3 (quick) / 5 (thorough); two doc-silent layout rows follow today's behaviour; width additions assumed not to overflow.", "3/C13"),
+ "C20": ("other", "abstract interpretation with a bit-vector domain; extracted path predicates and result expressions evaluated over the complete finite domain",
+         "All KindSet operators in every operand combination (64x64, 64x6, 6x6), len/is_empty, iterator steps (lowest/highest kind, exact removal, size_hint), the three renderings for all 64 sets, the constants and Value::kind are equal to set semantics: every operation is extracted as a set of (path predicate, result expression) pairs over symbolic mask bits and those expressions are evaluated on the complete domain.",
+         "summary table (count_ones, fmt entry points); the set semantics in the rule file.", "3/C20"),
 }
 
 NOT_YET = {}
